@@ -551,6 +551,27 @@ def run_structural(case, ctx):
             ctx.notes["excluded:" + key] = ctx.notes.get("excluded:" + key, 0) + 1
             continue
         ctx.fail("structural:" + (key or "unlisted"), f"{desc} (offset {off}, new bytes {list(new)}, field {lab}, loader {loader})")
+    if loader.startswith("ts") and only is None:
+        # the keys of items that must be present together (PAIRS) also through the table-collection loader of the
+        # same kind, which does not go on to build a tree sequence and so has to notice a lone partner itself
+        other = "tc" + loader[2:]
+        paired = {k for pr in PAIRS for k in pr}
+        spans = [(it["key_start"], it["key_start"] + it["key_len"]) for it in lay["items"] if it["key"] in paired]
+        write(path, buf)
+        ref2 = image(as_tables(load_with(tskit, path, other)))
+        for off, new, lab in structural_faults(buf, lay):
+            if lab != "key" or not any(a <= off < b for a, b in spans):
+                continue
+            data = buf[:off] + new + buf[off + len(new):]
+            write(path, data)
+            try:
+                obj = load_with(tskit, path, other)
+            except acc:
+                continue
+            key, desc = classify_structural(tskit, lay, off, ref2, image(as_tables(obj)), lab, other, data)
+            if key is not None and key in known:
+                continue
+            ctx.fail("structural:" + (key or "unlisted"), f"{desc} (offset {off}, new bytes {list(new)}, field {lab}, loader {other})")
     os.unlink(path)
 
 
